@@ -152,6 +152,14 @@ def run(case, max_steps=30000):
                 finally:
                     if not sim.aborted:
                         rec['done'] = sim.now
+                # chained calls: the same task asks again for the same key the moment it has been answered
+                # (no suspension in between), so the follow-up is causally *after* the answer
+                for n in range(c.get('chain', 0)):
+                    j = len(callers)
+                    callers.append({'i': j, 'name': c['name'], 'key': rec['key'], 'arrived': None, 'seq': None, 'done': None,
+                                    'outcome': None, 'cancel_req': None, 'spec': dict(c, chain=0), 'fresh': False,
+                                    'after': callers[j - 1]['i'] if n else i})
+                    await call(j, dict(c, chain=0, timeout=None, cancel=None))
 
             def start(i, c):
                 t = loop.create_task(call(i, c))
